@@ -633,7 +633,7 @@ func (qr *QRCode) encodeSegments(buf *bitstream.Buffer) error {
 	case 3:
 		terminate = 7
 	case 4:
-		terminate = 8
+		terminate = 9
 	}
 	if terminate < left {
 		left = terminate
@@ -642,7 +642,10 @@ func (qr *QRCode) encodeSegments(buf *bitstream.Buffer) error {
 
 	// add padding.
 	if buf.Len() < capacity.DataBits {
-		buf.WriteBitsLSB(0x00, int(8-buf.Len()%8))
+		// align to bytes
+		if mod := buf.Len() % 8; mod != 0 {
+			buf.WriteBitsLSB(0x00, int(8-mod))
+		}
 		for i := 0; buf.Len() < capacity.DataBits; i++ {
 			switch i % 4 {
 			case 0:
